@@ -1476,10 +1476,10 @@ pub open spec fn sheets_ok(c: ZipContent, sh: Seq<(String, String)>) -> bool { f
 //@@ impl src/xlsx/mod.rs Xlsx
 #[verifier::loop_isolation(false)]
 #[verifier::allow_complex_invariants]
-//@@ fn src/xlsx/mod.rs Xlsx::read_merged_regions props=C17 entry ret=r
+//@@ fn src/xlsx/mod.rs Xlsx::read_merged_regions props=C17,C07 entry ret=r
 //@@ sig
     ensures
-        //# C17.read_merged_regions_frame
+        //# C17,C07.read_merged_regions_frame
         final(self).strings == old(self).strings && final(self).sheets == old(self).sheets && final(self).tables == old(self).tables
             && final(self).formats == old(self).formats && final(self).is_1904 == old(self).is_1904 && final(self).metadata == old(self).metadata
             && final(self).options == old(self).options && content(final(self).zip) == content(old(self).zip),
@@ -1593,12 +1593,12 @@ impl<RS> Xlsx<RS> {
 }
 
 //@@ impl src/xlsx/mod.rs Xlsx
-//@@ fn src/xlsx/mod.rs Xlsx::load_merged_regions props=C17 entry ret=r
+//@@ fn src/xlsx/mod.rs Xlsx::load_merged_regions props=C17,C07 entry ret=r
 //@@ sig
     ensures
-        //# C17.load_merged_regions_frame
+        //# C17,C07.load_merged_regions_frame
         final(self).but_merged() == old(self).but_merged(),
-        //# C17.load_merged_regions_idempotent
+        //# C17,C07.load_merged_regions_idempotent
         old(self).g_merged() is Some ==> r is Ok && final(self).g_merged() == old(self).g_merged(),
         //# C17.merged_regions_loaded_or_unchanged
         (r is Ok ==> final(self).g_merged() is Some) && (r is Err ==> final(self).g_merged() == old(self).g_merged()),
@@ -1616,7 +1616,7 @@ impl<RS> Xlsx<RS> {
         *r == self.g_merged()->Some_0,
 //@@ end
 #[verifier::loop_isolation(false)]
-//@@ fn src/xlsx/mod.rs Xlsx::merged_regions_by_sheet props=C17 ret=r
+//@@ fn src/xlsx/mod.rs Xlsx::merged_regions_by_sheet props=C17,C06 ret=r
 //@@ sig
     requires
         //# C17.merged_regions_loaded
@@ -1779,7 +1779,7 @@ pub open spec fn merge_cells_of(sh: Seq<(String, String)>, c: ZipContent, name: 
         merge_cells_of(old(self).g_sheets()@, content(old(self).g_zip()), name@, r),
 //@@ closure 0
     -> (res: bool) ensures
-        //# C17.sheet_lookup_exact_name
+        //# C17,C07.sheet_lookup_exact_name
         res == (__c0_0.0@ == name@)
 //@@ closure 1
     -> (res: Result<Vec<Dimensions>, XlsxError>) ensures
@@ -1838,14 +1838,14 @@ pub open spec fn merge_cells_of(sh: Seq<(String, String)>, c: ZipContent, name: 
 //@@ before /if let Ok\(cells\) = read_merge_cells/
                         proof { assert(event.ev() == ev[pos]); assert(ev[pos].kind is Start && ev[pos].local == n_mergecells()); }
 //@@ end
-//@@ fn src/xlsx/mod.rs Xlsx::worksheet_merge_cells_at props=C17 entry ret=r
+//@@ fn src/xlsx/mod.rs Xlsx::worksheet_merge_cells_at props=C17,C07 entry ret=r
 //@@ sig
     ensures
-        //# C17.worksheet_merge_cells_frame
+        //# C17,C07.worksheet_merge_cells_frame
         final(self).but_merged() == old(self).but_merged() && final(self).g_merged() == old(self).g_merged(),
         //# C17.no_such_sheet_index
         n >= old(self).g_meta().m_sheets().len() ==> r is None,
-        //# C17.merge_cells_of_the_nth_sheet
+        //# C17,C07.merge_cells_of_the_nth_sheet
         n < old(self).g_meta().m_sheets().len() ==> merge_cells_of(old(self).g_sheets()@, content(old(self).g_zip()), old(self).g_meta().m_sheets()[n as int].name@, r),
 //@@ closure 0
     -> (res: String) ensures
@@ -2098,21 +2098,21 @@ proof fn witness_merged_loaded<RS>(x: Xlsx<RS>)
 }
 
 //@@ impl src/xlsx/mod.rs Xlsx
-//@@ fn src/xlsx/mod.rs Xlsx::load_tables props=C17 ret=r
+//@@ fn src/xlsx/mod.rs Xlsx::load_tables props=C17,C07,C06 ret=r
 //@@ sig
     requires
         //# C16.sheet_paths_under_xl  (data invariant of `sheets`, established by read_workbook; not a condition on the file)
         sheet_paths_under_xl(old(self).g_sheets()@),
     ensures
-        //# C17.load_tables_frame
+        //# C17,C07.load_tables_frame
         final(self).but_tables() == old(self).but_tables(),
-        //# C17.load_tables_idempotent
+        //# C17,C07.load_tables_idempotent
         old(self).g_tables() is Some ==> r is Ok && final(self).g_tables() == old(self).g_tables(),
         //# C17.tables_loaded_or_unchanged
         (r is Ok ==> final(self).g_tables() is Some) && (r is Err ==> final(self).g_tables() == old(self).g_tables()),
 //@@ end
 #[verifier::loop_isolation(false)]
-//@@ fn src/xlsx/mod.rs Xlsx::table_names props=C17 ret=r
+//@@ fn src/xlsx/mod.rs Xlsx::table_names props=C17,C06 ret=r
 //@@ sig
     requires
         //# C17.tables_loaded  (documented: "Tables must be loaded before they are referenced")
@@ -2140,7 +2140,7 @@ proof fn witness_merged_loaded<RS>(x: Xlsx<RS>)
         }
 //@@ end
 #[verifier::loop_isolation(false)]
-//@@ fn src/xlsx/mod.rs Xlsx::table_names_in_sheet props=C17 ret=r
+//@@ fn src/xlsx/mod.rs Xlsx::table_names_in_sheet props=C17,C06 ret=r
 //@@ sig
     requires
         //# C17.tables_loaded  (documented: "Tables must be loaded before they are referenced")
@@ -2410,13 +2410,13 @@ proof fn witness_tb_part(ns: Seq<u8>, n_raw: Seq<u8>, n: Seq<char>, r_raw: Seq<u
 //@@ impl src/xlsx/mod.rs Xlsx
 #[verifier::loop_isolation(false)]
 #[verifier::allow_complex_invariants]
-//@@ fn src/xlsx/mod.rs Xlsx::read_table_metadata props=C17,C06 entry ret=r r4
+//@@ fn src/xlsx/mod.rs Xlsx::read_table_metadata props=C17,C06,C07 entry ret=r r4
 //@@ sig
     requires
         //# C16.sheet_paths_under_xl  (data invariant of `sheets`, established by read_workbook; not a condition on the file)
         sheet_paths_under_xl(old(self).sheets@),
     ensures
-        //# C17.load_tables_frame
+        //# C17,C07.load_tables_frame
         final(self).strings == old(self).strings && final(self).sheets == old(self).sheets && final(self).formats == old(self).formats
             && final(self).is_1904 == old(self).is_1904 && final(self).metadata == old(self).metadata
             && final(self).merged_regions == old(self).merged_regions && final(self).options == old(self).options
